@@ -23,11 +23,13 @@ class Q:
         self.solver = z3.Solver()
         self.solver.set("timeout", 120000)
 
-    def check(self, *conds):
+    def check(self, *conds, domain=None):
         self.queries += 1
         t0 = time.time()
         self.solver.push()
         for c in conds:
+            self.solver.add(c)
+        for c in (domain or {}).values():
             self.solver.add(c)
         r = self.solver.check()
         model = self.solver.model() if r == z3.sat else None
@@ -92,8 +94,8 @@ def need_anchor(res, evs, what):
     return True
 
 
-def reachable_anchor(res, q, ev):
-    r, _ = q.check(ev.reach)
+def reachable_anchor(res, q, ev, E=None):
+    r, _ = q.check(ev.reach, domain=E.domain if E else None)
     res.queries += 1
     if r == z3.sat:
         res.nontrivial = True
@@ -111,7 +113,7 @@ def guarded(res, E, q, evs, phi, what):
     any_reach = False
     for ev in evs:
         res.anchors.append(f"{ev.short}@bb{ev.bb}.{ev.layer}")
-        if not reachable_anchor(res, q, ev):
+        if not reachable_anchor(res, q, ev, E):
             continue
         any_reach = True
         p = phi(ev)
@@ -119,7 +121,7 @@ def guarded(res, E, q, evs, phi, what):
             res.status = "inconclusive"
             res.notes.append(f"guard symbols not found at bb{ev.bb}")
             continue
-        r, model = q.check(ev.reach, z3.Not(p))
+        r, model = q.check(ev.reach, z3.Not(p), domain=E.domain)
         res.queries += 1
         if r == z3.sat:
             violated(res, E, q, ev, model, what)
@@ -147,7 +149,7 @@ def never(res, E, q, evs, cond, what):
             res.status = "inconclusive"
             res.notes.append(f"condition symbols not found at bb{ev.bb}")
             continue
-        r, model = q.check(ev.reach, c)
+        r, model = q.check(ev.reach, c, domain=E.domain)
         res.queries += 1
         if r == z3.sat:
             violated(res, E, q, ev, model, what)
